@@ -48,6 +48,7 @@ type State struct {
 	CurWait   bool
 	NextTID   int
 	Sched     []int // schedule: thread ids in the order they were resumed
+	FreshN    map[string]int
 	Frames    []*Frame
 	Heap      map[int]Value // overlay over Engine.Base
 	PC        []*Term
@@ -85,6 +86,10 @@ func (s *State) Clone() *State {
 		n.Frames[i] = f
 	}
 	n.CurID, n.CurWait, n.NextTID = s.CurID, s.CurWait, s.NextTID
+	n.FreshN = make(map[string]int, len(s.FreshN))
+	for k, v := range s.FreshN {
+		n.FreshN[k] = v
+	}
 	n.Sched = append([]int(nil), s.Sched...)
 	for _, t := range s.Parked {
 		nt := &Thread{ID: t.ID, Waiting: t.Waiting, Frames: make([]*Frame, len(t.Frames))}
@@ -287,4 +292,15 @@ func sortedKeys(m map[string]int) []string {
 	}
 	sort.Strings(ks)
 	return ks
+}
+
+// Fresh returns the next variable of this name on this path.
+func (s *State) Fresh(name string, sort Sort) *Term {
+	if s.FreshN == nil {
+		s.FreshN = map[string]int{}
+	}
+	name = smtName(name)
+	k := s.FreshN[name]
+	s.FreshN[name] = k + 1
+	return freshVar(name, k, sort)
 }
